@@ -126,6 +126,27 @@ def attribute_resolution(ctx, rule, rel, root, operand_slots):
 # ------------------------------------------------------------------ non-commutative term algebra
 
 
+def _norm_scalars(s):
+    """Normal form of a commuting scalar monomial: x * x⁻¹ cancels, i*i = -1, i⁻¹ = -i.  Returns (sign, letters)."""
+    exp = {}
+    for x in s:
+        if x.endswith("⁻¹"):
+            exp[x[:-2]] = exp.get(x[:-2], 0) - 1
+        else:
+            exp[x] = exp.get(x, 0) + 1
+    sign = 1
+    if "i" in exp:
+        e = exp.pop("i") % 4
+        if e >= 2:
+            sign, e = -1, e - 2
+        if e:
+            exp["i"] = 1
+    out = []
+    for x in sorted(exp):
+        out += [x] * exp[x] if exp[x] > 0 else [x + "⁻¹"] * (-exp[x])
+    return sign, tuple(sorted(out))
+
+
 class NC:
     """Polynomial in non-commuting operator letters with commuting scalar letters: {(scalars, word): int}."""
 
@@ -160,9 +181,20 @@ class NC:
         t = {}
         for (s1, w1), v1 in a.t.items():
             for (s2, w2), v2 in b.t.items():
-                k = (tuple(sorted(s1 + s2)), w1 + w2)
-                t[k] = t.get(k, 0) + v1 * v2
+                sign, sc = _norm_scalars(s1 + s2)
+                k = (sc, w1 + w2)
+                t[k] = t.get(k, 0) + sign * v1 * v2
         return NC(t)
+
+    def inv_scalar(a):
+        """1/a for a single scalar monomial with coefficient +-1 (e.g. i*k)."""
+        if len(a.t) != 1:
+            raise AnalysisError("homomorphism: reciprocal of a sum")
+        ((s, w), v), = a.t.items()
+        if w or v not in (1, -1):
+            raise AnalysisError("homomorphism: reciprocal of a non-scalar term")
+        sign, sc = _norm_scalars(tuple(x[:-2] if x.endswith("⁻¹") else x + "⁻¹" for x in s))
+        return NC({(sc, ()): v * sign})
 
     def __eq__(a, b):
         return a.t == b.t
